@@ -542,7 +542,10 @@ func setPBigDecimalFloatFromBigDecimalFloat(value *apd.Decimal, dst reflect.Valu
 func stringToRID(value string) *url.URL {
 	u, err := url.Parse(string(value))
 	if err != nil {
-		panic(err)
+		// A resource ID is not required to be something net/url can dissect
+		// (for example "a:b/c", "100%" or text containing control characters).
+		// Keep it as an opaque URL, which is written back out unchanged.
+		return &url.URL{Opaque: value}
 	}
 	return u
 }
